@@ -15,7 +15,7 @@ from typing import Any
 
 ID = 'C01'
 LEVEL = 'exploration'
-TECHNIQUE = 'runtime monitoring: offline history checker (per-object FIFO/exactly-once/no-overlap/worker-limit) over recorded fed/start/end/worker events of the real watcher+worker+scheduler on a virtual clock, with deadline-aligned arrivals; sys.monitoring line probes for the timeout-with-backlog branch'
+TECHNIQUE = 'runtime monitoring: offline history checker (per-object FIFO/exactly-once/no-overlap/worker-limit) over recorded fed/start/end/worker events of the real watcher+worker+scheduler on a virtual clock, with deadline-aligned arrivals; sys.monitoring line probes for the timeout-with-backlog branch; a livelock detector (loop iterations without the clock moving by itself) next to the stall sanitizer'
 LEVEL_TEXT = ('Held on the executions explored: thousands of scripted event streams through the real queueing.watcher/worker/Scheduler on virtual '
               'time, including arrivals constructed at the exact microsecond an idle worker retires (the branch the code marks as untestable is '
               'executed hundreds of times per run), saturated worker limits and cancellations; plus whole-operator runs comparing what @on.event '
